@@ -8,6 +8,7 @@ mod c12;
 mod c13;
 mod c15;
 mod c17;
+mod c19;
 mod ctl;
 mod driver;
 mod expat;
@@ -61,6 +62,7 @@ fn main() {
         "C13" => c13::run(&mut rep, &tier, seed),
         "C15" => c15::run(&mut rep, &tier, seed),
         "C17" => c17::run(&mut rep, &tier, seed),
+        "C19" => c19::run(&mut rep, &tier, seed),
         other => Err(format!("no harness for property {other}")),
     };
     if let Err(e) = r {
